@@ -595,6 +595,24 @@ def _pow2(v):
     return isinstance(v, int) and not isinstance(v, bool) and v > 0 and v & (v - 1) == 0
 
 
+STRICT_SUM = [False]
+_NUMERIC_ATOM = ('Mod(', 'Div(', 'len(', 'ord(', 'int(', 'abs(', 'BitAnd(', 'BitOr(', 'BitXor(', 'RShift(', 'LShift(', 'Pow(', 'Invert(', 'USub(', 'FloorDiv(')
+
+
+def canon_arith_strict(e):
+    """canon_arith that sorts the operands of `+` only where something shows the sum to be one of numbers (a non-zero
+    constant, a negated or scaled term, a length, a bit operation): `a + b` of two names may be a concatenation"""
+    STRICT_SUM[0] = True
+    try:
+        return canon_arith(e)
+    finally:
+        STRICT_SUM[0] = False
+
+
+def _plain_sum(lin):
+    return lin[1] == 0 and len(lin[0]) >= 2 and all(v == 1 for v in lin[0].values()) and not any(k.startswith(_NUMERIC_ATOM) for k in lin[0])
+
+
 def canon_arith(e):
     """Canonical text of an integer/bytes expression: constants folded, commutative operands sorted, integer-linear parts
     in sum-of-terms form, and the power-of-two spellings unified (x & (2^k-1) = x % 2^k, x >> k = x // 2^k, x << k =
@@ -653,10 +671,12 @@ def _ca(e):
                     a, b = (l, r) if _is_bytes_expr(l) else (r, l)
                     return 'Rep(%s,%s)' % (_ca(a), _ca(b))
             lin = _ca_linear(e)
+            if lin is not None and STRICT_SUM[0] and op is ast.Add and _plain_sum(lin):
+                return 'Add(%s,%s)' % (_ca(l), _ca(r))
             if lin is not None:
                 return _lin_text(sorted(lin[0].items()), lin[1])
         a, b = _ca(l), _ca(r)
-        if op in (ast.BitAnd, ast.BitOr, ast.BitXor, ast.Mult, ast.Add):
+        if op in (ast.BitAnd, ast.BitOr, ast.BitXor, ast.Mult, ast.Add) and not (STRICT_SUM[0] and op is ast.Add):
             a, b = sorted([a, b])
         return '%s(%s,%s)' % (op.__name__, a, b)
     if isinstance(e, ast.UnaryOp):
@@ -697,6 +717,14 @@ def _ca(e):
         return ('[' if il else '(') + ','.join(_ca(x) for x in e.elts) + (']' if il else ')')
     if isinstance(e, ast.IfExp):
         return 'If(%s,%s,%s)' % (canon_text(ast.unparse(e.test)), _ca(e.body), _ca(e.orelse))
+    if isinstance(e, ast.BoolOp):
+        return '%s(%s)' % (type(e.op).__name__, ','.join(_ca(v) for v in e.values))
+    if isinstance(e, ast.Compare):
+        return 'Cmp(%s%s)' % (_ca(e.left), ''.join(' %s %s' % (type(o).__name__, _ca(c)) for o, c in zip(e.ops, e.comparators)))
+    if isinstance(e, (ast.ListComp, ast.GeneratorExp, ast.SetComp)) and all(not g.is_async for g in e.generators):
+        gens = ' '.join('for %s in %s%s' % (ast.unparse(g.target), _ca(g.iter), ''.join(' if ' + ast.unparse(i) for i in g.ifs)) for g in e.generators)
+        br = {'ListComp': '[%s %s]', 'GeneratorExp': '(%s %s)', 'SetComp': '{%s %s}'}[type(e).__name__]
+        return br % (_ca(e.elt), gens)
     return ast.unparse(e)
 
 
@@ -724,6 +752,10 @@ def _ca_linear(e):
             r = _ca_linear(x)
             if r is not None:
                 return {a: v * k for a, v in r[0].items() if v * k}, r[1] * k
+        if lc is None and rc is None:
+            # a product of two non-constants is one atom: its factors in sorted order
+            a_, b_ = sorted([_ca(e.left), _ca(e.right)])
+            return {'Mult(%s,%s)' % (a_, b_): 1}, 0
     if isinstance(e, ast.BinOp) and isinstance(e.op, ast.LShift):
         rc = _ca_int(e.right)
         if rc is not None and 0 <= rc < 4096:
